@@ -58,6 +58,10 @@ type Profile struct {
 	admission section was left (before its proxy starts) until a "proceed"
 	event: the window between "attached" and "running". */
 	GateAdmitted bool `json:"gate_admitted"`
+	/* LogGate parks a stream inside its admission, at its "New connection"
+	log record (a slow log), until a "logproceed" event: other admissions
+	can be started meanwhile and must wait for the broker's lock. */
+	LogGate bool `json:"log_gate"`
 	/* ViaChanWriter enters lines through opshell.ChanWriter, as Ctrl+I does. */
 	ViaChanWriter bool `json:"via_chanwriter"`
 	/* JSONLog also sends every record through a real slog JSON handler. */
@@ -89,7 +93,7 @@ func (e Event) String() string {
 	switch e.Op {
 	case "start":
 		return fmt.Sprintf("start(spec%d)", e.Spec)
-	case "admit", "release", "proceed":
+	case "admit", "release", "proceed", "logproceed":
 		return fmt.Sprintf("%s(a%d,%s)", e.Op, e.A, e.Dir)
 	case "out", "outcancel":
 		return fmt.Sprintf("%s(a%d,o%d)", e.Op, e.A, e.Arg)
@@ -125,6 +129,7 @@ type half struct {
 	st           halfState
 	gate         chan struct{}
 	everAttached bool
+	logGate      chan struct{} /* Non-nil while parked at the log gate. */
 	/* Model's view. */
 	mDecided bool
 	mAccept  bool
@@ -245,6 +250,9 @@ func New(p *Profile) *World {
 	w.b.AddEventListener(w.evL)
 	w.root, w.rootCancel = context.WithCancel(context.Background())
 	current = w
+	if p.LogGate {
+		w.lh.st.gate = w.logGate
+	}
 	iobroker.VerifHook = hook
 	w.old = map[string]bool{}
 	for _, g := range quiesce.Dump() {
@@ -257,6 +265,31 @@ func New(p *Profile) *World {
 	}()
 	w.lastGS = quiesce.Wait()
 	return w
+}
+
+// logGate parks the goroutine logging a "New connection" record.
+func (w *World) logGate(rec LogRec) {
+	if iobroker.LMNewConnection != rec.Msg {
+		return
+	}
+	var id int
+	if _, err := fmt.Sscan(rec.Attrs["attempt"], &id); nil != err {
+		return
+	}
+	w.mu.Lock()
+	if w.freeRun || id >= len(w.attempts) {
+		w.mu.Unlock()
+		return
+	}
+	h := w.attempts[id].halves[rec.Attrs[iobroker.LKDirection]]
+	if nil == h {
+		w.mu.Unlock()
+		return
+	}
+	ch := make(chan struct{})
+	h.logGate = ch
+	w.mu.Unlock()
+	<-ch
 }
 
 // hook is installed as iobroker.VerifHook.
@@ -328,6 +361,18 @@ func (w *World) Enabled() []Event {
 		for _, h := range a.halfList() {
 			if hInAdmission == h.st || hReleasing == h.st {
 				mid = true
+			}
+		}
+	}
+	if p.LogGate {
+		/* Someone parked at the log gate is "mid-section" by design:
+		everything else stays possible. */
+		mid = false
+		for _, a := range w.attempts {
+			for _, h := range a.halfList() {
+				if nil != h.logGate {
+					evs = append(evs, Event{Op: "logproceed", A: a.id, Dir: h.dir})
+				}
 			}
 		}
 	}
@@ -435,6 +480,13 @@ func (w *World) Do(e Event) *Step {
 	case "proceed":
 		h := w.attempts[e.A].halves[e.Dir]
 		h.gate <- struct{}{}
+	case "logproceed":
+		h := w.attempts[e.A].halves[e.Dir]
+		w.mu.Lock()
+		ch := h.logGate
+		h.logGate = nil
+		w.mu.Unlock()
+		close(ch)
 	case "release":
 		h := w.attempts[e.A].halves[e.Dir]
 		w.m.release(w, h)
@@ -686,6 +738,9 @@ func (w *World) Canon() string {
 		fmt.Fprintf(&t, "%d:c%v,r%v", a.spec, a.cancelled, a.returned)
 		for _, h := range a.halfList() {
 			fmt.Fprintf(&t, ",%s=%s", h.dir[:1], halfStateNames[h.st])
+			if nil != h.logGate {
+				t.WriteString("@log")
+			}
 		}
 		if nil != a.r {
 			fmt.Fprintf(&t, ",R%s,%d", a.r.state(), a.outsUsed)
@@ -718,6 +773,10 @@ func (w *World) Close() int {
 	for _, a := range w.attempts {
 		for _, h := range a.halves {
 			gates = append(gates, h.gate)
+			if nil != h.logGate {
+				close(h.logGate)
+				h.logGate = nil
+			}
 		}
 	}
 	w.mu.Unlock()
